@@ -17,6 +17,7 @@ import onnx_ir as ir
 import onnxscript
 from onnxscript import onnx_types
 from onnxscript._internal import (
+    _verif,
     analysis,
     ast_utils,
     autocast,
@@ -281,6 +282,8 @@ class Converter:
         self._current_fn = irbuilder.IRFunction(name)
         self._locals.append({})
         logger.debug("Converter:_enter_scope:%d:node:%s", len(self._locals), type(parent_node))
+        if _verif.ENABLED:
+            _verif.emit("converter", "Enter", name=name, depth=len(self._locals))
 
     def _exit_scope(self) -> irbuilder.IRFunction:
         """Exit from a control-flow block (a loop body or if-then-else branch)."""
@@ -292,6 +295,14 @@ class Converter:
         # enclosing function/model.
         for domain, version in graph.opset_imports.items():
             self._current_fn.opset_imports.setdefault(domain, version)
+        if _verif.ENABLED:
+            _verif.emit(
+                "converter",
+                "Exit",
+                depth=len(self._locals),
+                params=[v.name for v in graph.inputs],
+                outputs=[v.name for v in graph.outputs],
+            )
         return graph
 
     def _current_scope(self) -> dict[str, LocalSymValue]:
@@ -300,6 +311,15 @@ class Converter:
     def _bind(self, name: str, val: LocalSymValue) -> None:
         logger.debug("Converter:_bind:%s", name)
         self._locals[-1][name] = val
+        if _verif.ENABLED:
+            bound = getattr(val, "value", val)
+            _verif.emit(
+                "converter",
+                "Bind",
+                var=name,
+                value=bound.name if isinstance(bound, ir.Value) else "",
+                what=type(bound).__name__,
+            )
 
     def _lookup(
         self, name: str, info: sourceinfo.SourceInfo, raise_exception: bool = True
@@ -326,6 +346,8 @@ class Converter:
             r = f"{candidate}_{self._nextvar}"
             self._nextvar = self._nextvar + 1
         self._used_vars.add(r)
+        if _verif.ENABLED:
+            _verif.emit("converter", "Gen", cand=candidate, result=r)
         return r
 
     def _to_onnx_attr_ref(
@@ -413,6 +435,15 @@ class Converter:
         node.meta.setdefault("callee", callee)
         assert self._current_fn is not None
         self._current_fn.append_node(node)
+        if _verif.ENABLED:
+            _verif.emit(
+                "converter",
+                "Emit",
+                op=callee.name,
+                domain=callee.opset.domain,
+                ins=[("" if v is None else v.name) for v in inputs],
+                outs=list(outputs),
+            )
 
         return output_values if len(output_values) > 1 else output_values[0]
 
@@ -1185,6 +1216,16 @@ class Converter:
         )
         if isinstance(if_outputs, ir.Value):
             if_outputs = [if_outputs]
+        if _verif.ENABLED:
+            _verif.emit(
+                "converter",
+                "If",
+                lineno=stmt.lineno,
+                live_defs=list(live_defs),
+                outs=[y.name for y in if_outputs],
+                then_outs=[v.name for v in then_graph.outputs],
+                else_outs=[v.name for v in else_graph.outputs],
+            )
         for x, y in zip(live_defs, if_outputs):
             self._bind(
                 x,
@@ -1269,17 +1310,23 @@ class Converter:
             self._source_of(loop_stmt),
         )
         self._current_fn.append_parameter(onnx_loop_var)
+        if _verif.ENABLED:
+            _verif.emit("converter", "Param", name=onnx_loop_var.name, signature=False)
         self._bind(
             python_loop_var_name,
             values.SymbolValue(onnx_loop_var, self._source_of(loop_stmt)),
         )
 
         self._current_fn.append_parameter(i_cond_var)
+        if _verif.ENABLED:
+            _verif.emit("converter", "Param", name=i_cond_var.name, signature=False)
 
         for pv in loop_state_vars:
             onnx_var_name = self._generate_unique_name(pv)
             parameter = make_value(onnx_var_name, None, self._source_of(loop_stmt))
             self._current_fn.append_parameter(parameter)
+            if _verif.ENABLED:
+                _verif.emit("converter", "Param", name=parameter.name, signature=False)
             if pv == python_loop_var_name:
                 # In each iteration the loop variable starts as the iteration number,
                 # not as the value carried over from the previous iteration.
@@ -1354,6 +1401,13 @@ class Converter:
                 # ONNX does not allow duplicate output names.
                 onnx_var = self._emit_copy(onnx_var, pv)
             self._current_fn.outputs.append(onnx_var)
+        if _verif.ENABLED:
+            _verif.emit(
+                "converter",
+                "BodyEnd",
+                state=list(loop_state_vars),
+                outputs=[v.name for v in self._current_fn.outputs],
+            )
         body = self._exit_scope()
         inputs = [o_loop_bound, o_loop_condition] + [
             self._py_var_to_onnx_var(pv, self._source_of(loop_stmt)) for pv in loop_state_vars
@@ -1374,6 +1428,19 @@ class Converter:
         )
         if isinstance(loop_outputs, ir.Value):
             loop_outputs = [loop_outputs]
+        if _verif.ENABLED:
+            _verif.emit(
+                "converter",
+                "Loop",
+                lineno=loop_stmt.lineno,
+                loop="for" if isinstance(loop_stmt, ast.For) else "while",
+                loop_var=python_loop_var_name,
+                state=list(outputs),
+                ins=[("" if v is None else v.name) for v in inputs],
+                outs=[v.name for v in loop_outputs],
+                body_params=[v.name for v in body.graph.inputs],
+                body_outs=[v.name for v in body.graph.outputs],
+            )
         for x, loop_output in zip(outputs, loop_outputs):
             self._bind(x, values.SymbolValue(loop_output, info))
 
@@ -1468,6 +1535,8 @@ class Converter:
                 onnx_parameter = make_value(x.arg, typeinfo, self._source_of(x))
                 self._current_fn.append_parameter(onnx_parameter)
                 self._used_vars.add(x.arg)
+                if _verif.ENABLED:
+                    _verif.emit("converter", "Param", name=x.arg, signature=True)
                 self._bind(
                     x.arg,
                     values.SymbolValue(onnx_parameter, self._source_of(x)),
@@ -1508,7 +1577,19 @@ class Converter:
             domain = self.this_module.domain
             self._current_fn = irbuilder.IRFunction(stmt.name, domain)
             self._analyzer = analysis.AstAnalyzer(stmt, self._message, self.globals)
+            if _verif.ENABLED:
+                _verif.begin(
+                    "converter",
+                    fn=stmt.name,
+                    source=self.source,
+                    constant_ifs={
+                        str(k.lineno): v
+                        for k, v in self._analyzer._constant_if_condition.items()  # pylint: disable=protected-access
+                    },
+                )
             fn_ir = self._translate_function_def_common(stmt)
+            if _verif.ENABLED:
+                _verif.end("converter", outputs=[v.name for v in fn_ir.outputs])
             self._analyzer = None
             return fn_ir
         raise ValueError(f"Unsupported top-level statement type {type(stmt)!r}.")
